@@ -1,4 +1,145 @@
-import Gp.Lemmas.Layers.Icmp
-/- C06 for engine licmp: theorems under construction (see notes/licmp.md). -/
+import Gp.Lemmas.Layers.IcmpDefects
+/-
+  C06 for layers/icmp4.go, icmp6.go, icmp6msg.go (engine `licmp`): serialize (FixLengths and
+  ComputeChecksums on) then decode returns the same layer and payload.
+
+  * `wf` (Gp/Lemmas/Layers/IcmpRt.lean) is the explicit, decidable in-range predicate: numeric
+    fields fit their Go types; NDP target/destination addresses are 16 bytes; every NDP option
+    has a byte type and a total length that is a non-zero multiple of 8 not above 2040 (what the
+    one-byte length field can carry); ICMPv6.TypeBytes is nil ("deprecated and always nil").
+  * `payloadAllowed`: any payload under ICMPv4 / ICMPv6 / ICMPv6Echo; the five NDP messages carry
+    no payload (their decoders read the whole rest as options and report a nil payload), so
+    "where the protocol allows" means the empty payload for them.
+  * `strip` is `≈`: all public fields, option lists in order; Contents/Payload/pseudo-header
+    forgotten.  Payload equality is stated separately.
+  * `hasNet`: ICMPv6 can only compute its checksum with a network layer attached
+    (SetNetworkLayerForChecksum) — otherwise SerializeTo returns an error by design.
+
+  The model is the tree with proposed_fixes/licmp-1 (NDP options were written in REVERSE order:
+  `Gp.Icmp.roundtrip_options_counterexample_prefix`) and licmp-2 (ICMPv6Echo did not set its
+  BaseLayer, so the payload was lost: `Gp.Icmp.roundtrip_echo_counterexample_prefix`) applied;
+  the pre-fix counterexamples live in Gp/Lemmas/Layers/IcmpDefects.lean.
+-/
 namespace Gp.C06.Icmp
+open Gp Gp.SBuf Gp.Icmp Gp.C18
+
+/-- Every successfully decoded layer is in range — for any capacity, and for any reused object
+    whose never-assigned fields are untouched (in particular a fresh one, or one reached by any
+    decode history: `Gp.C05.Icmp.history_invariant`). -/
+theorem decoded_wf (old : AnyLayer) (data foreign : Bytes) (r : Dec AnyLayer) (hu : Untouched old)
+    (e : old.decode ⟨data, foreign⟩ = .ok r) (he : r.err = false) : wf r.layer := by
+  rw [decodeAny_eq] at e
+  cases e
+  exact pureAny_wf old data hu he
+
+/-- Round trip: an in-range layer written over an allowed payload (any buffer of the C18 model)
+    and decoded again (fresh object, any capacity / foreign bytes behind the bytes) gives a
+    layer with the same field values and the same payload, no error, no truncation flag. -/
+theorem roundtrip (l : AnyLayer) (b : SBuf) (foreign : Bytes) (h : Inv b) (hwf : wf l)
+    (hp : payloadAllowed l (contents b)) (hn : hasNet l) :
+    ∃ b' lf ld, l.serialize b ⟨true, true⟩ = .ok (b', lf) ∧ wf lf ∧
+      (fresh l.kind).decode ⟨contents b', foreign⟩ = .ok ⟨ld, false, false⟩ ∧
+      strip ld = strip lf ∧ ld.payload = contents b := by
+  obtain ⟨out, lf, hs⟩ := spec_ok_of_wf l (contents b) hwf hn
+  have hspec := (serializeAny_spec l b ⟨true, true⟩ h).1
+  rw [hs] at hspec
+  cases hser : l.serialize b ⟨true, true⟩ with
+  | panic k => rw [hser] at hspec; cases hspec
+  | err e => rw [hser] at hspec; cases hspec
+  | ok r =>
+    obtain ⟨b', lf'⟩ := r
+    rw [hser] at hspec
+    simp only [outOf, Res.ok.injEq, Prod.mk.injEq] at hspec
+    obtain ⟨hb, hl⟩ := hspec
+    subst hl
+    obtain ⟨hwf', _, _, c, hd⟩ := decode_spec_enc l lf' (contents b) out hwf hp hs
+    refine ⟨b', lf', setBase (setNet lf' .absent) c (contents b), rfl, hwf', ?_, ?_, ?_⟩
+    · rw [decodeAny_eq, hb, hd]
+    · rw [strip_setBase, strip_setNet]
+    · exact payload_setBase _ _ _
+
+/-- Re-serialising what was decoded (with the network layer attached again where one is needed)
+    over the decoded payload reproduces the same bytes, in any buffer. -/
+theorem reserialize_fixpoint (l : AnyLayer) (b b2 : SBuf) (foreign : Bytes) (h : Inv b) (h2 : Inv b2)
+    (hwf : wf l) (hp : payloadAllowed l (contents b))
+    (b' : SBuf) (lf ld : AnyLayer)
+    (hs : l.serialize b ⟨true, true⟩ = .ok (b', lf))
+    (hd : (fresh l.kind).decode ⟨contents b', foreign⟩ = .ok ⟨ld, false, false⟩)
+    (hc : contents b2 = ld.payload) :
+    ∃ b'' ld', (setNet ld (netOf l)).serialize b2 ⟨true, true⟩ = .ok (b'', ld') ∧
+      contents b'' = contents b' ∧ ld' = setNet ld (netOf l) := by
+  have hspec := (serializeAny_spec l b ⟨true, true⟩ h).1
+  rw [hs] at hspec
+  simp only [outOf] at hspec
+  obtain ⟨hwf', _, hnet, c, hdec⟩ := decode_spec_enc l lf (contents b) (contents b') hwf hp hspec.symm
+  rw [decodeAny_eq] at hd
+  simp only [Res.ok.injEq] at hd
+  rw [hdec] at hd
+  simp only [Dec.mk.injEq, and_true] at hd
+  subst hd
+  rw [payload_setBase] at hc
+  -- the first serialisation is a fixpoint of the spec; Contents/Payload are never read
+  have hid := Gp.Icmp.spec_setBase lf lf c (contents b) (contents b) (contents b') ⟨true, true⟩
+    (spec_idempotent l lf _ _ _ hspec.symm)
+  have hnet' : setNet (setBase (setNet lf .absent) c (contents b)) (netOf l) = setBase lf c (contents b) := by
+    rw [setNet_setBase, ← hnet, setNet_netOf]
+  rw [hnet']
+  have hspec2 := (serializeAny_spec (setBase lf c (contents b)) b2 ⟨true, true⟩ h2).1
+  rw [hc, hid] at hspec2
+  cases hser : (setBase lf c (contents b)).serialize b2 ⟨true, true⟩ with
+  | panic k => rw [hser] at hspec2; cases hspec2
+  | err e => rw [hser] at hspec2; cases hspec2
+  | ok r =>
+    obtain ⟨b'', ld'⟩ := r
+    rw [hser] at hspec2
+    simp only [outOf, Res.ok.injEq, Prod.mk.injEq] at hspec2
+    exact ⟨b'', ld', rfl, hspec2.1, hspec2.2⟩
+
+/-! ### the pinned (pre-fix) code violates the round trip: negation witnesses -/
+
+/-- Without proposed_fixes/licmp-1 two in-range NDP options come back in reverse order. -/
+theorem prefix_roundtrip_options_counterexample :
+    (match serializeNSOrig { targetAddress := List.replicate 16 9, options := twoOpts } (new 0 0) ⟨true, true⟩ with
+     | .ok (b', _) => (match decodeNS {} ⟨contents b', []⟩ with | .ok d => d.layer.options | _ => [])
+     | _ => []) = twoOpts.reverse ∧ twoOpts.reverse ≠ twoOpts :=
+  ⟨roundtrip_options_counterexample_prefix, by decide⟩
+
+/-- Without proposed_fixes/licmp-2 the payload written under an ICMPv6Echo does not come back. -/
+theorem prefix_roundtrip_echo_counterexample :
+    (match serializeEcho { identifier := 7, seqNumber := 9 } (step (new 0 0) (.prepend [0x61, 0x62])) ⟨true, true⟩ with
+     | .ok (b', _) => (match decodeEchoOrig {} ⟨contents b', []⟩ with | .ok d => d.layer.payload | _ => [0])
+     | _ => [0]) = [] :=
+  roundtrip_echo_counterexample_prefix
+
+/-! ### non-vacuity: concrete in-range layers (the hypotheses are satisfiable) -/
+
+/-- a Router Advertisement with three options of different kinds and sizes -/
+example : wf (.ra {
+    hopLimit := 64, flags := 0xc0, routerLifetime := 1800, reachableTime := 0x01020304,
+    retransTimer := 0xfffefdfc,
+    options := [⟨1, [0xc2, 0, 0x54, 0xf5, 0, 0]⟩, ⟨5, [0, 0, 0, 0, 5, 0xdc]⟩, ⟨3, List.replicate 30 7⟩] }) := by
+  decide
+
+example : payloadAllowed (.ra {}) (contents (new 0 0)) := by
+  show contents (new 0 0) = []
+  decide
+
+/-- an ICMPv6 header with an IPv6 pseudo-header -/
+example : wf (.icmp6 { typeCode := 0x8700, pseudo := .v6 (List.replicate 16 1) (List.replicate 16 2) }) ∧
+    hasNet (.icmp6 { typeCode := 0x8700, pseudo := .v6 (List.replicate 16 1) (List.replicate 16 2) }) := by
+  decide
+
+def exampleNS : AnyLayer :=
+  .ns { targetAddress := List.replicate 16 9, options := [⟨1, [1, 2, 3, 4, 5, 6]⟩, ⟨2, [6, 5, 4, 3, 2, 1]⟩] }
+
+/-- the round trip on a concrete Neighbor Solicitation with TWO options (order preserved) -/
+example :
+    (match exampleNS.serialize (new 0 0) ⟨true, true⟩ with
+     | .ok (b', _) => (fresh .ns).decode ⟨contents b', [0xee]⟩
+     | _ => .err "no") =
+    .ok ⟨.ns {
+          contents := zeros 4 ++ List.replicate 16 9 ++ [1, 1, 1, 2, 3, 4, 5, 6, 2, 1, 6, 5, 4, 3, 2, 1],
+          payload := [], targetAddress := List.replicate 16 9,
+          options := [⟨1, [1, 2, 3, 4, 5, 6]⟩, ⟨2, [6, 5, 4, 3, 2, 1]⟩] }, false, false⟩ := by decide
+
 end Gp.C06.Icmp
